@@ -69,7 +69,7 @@ var specs = []CheckSpec{
 		ID: "C19", Pkg: "imports",
 		Harnesses: []HarnessSpec{
 			{Fn: "VerifC19Terms", Quick: map[string]int{"O": 2, "T": 2, "V": 2}, Thorough: map[string]int{"O": 2, "T": 2, "V": 6}, Witness: []string{"evaluated"}, Native: true},
-			{Fn: "VerifC19TermsWide", Quick: map[string]int{"O": 1, "T": 2, "V": 8}, Thorough: map[string]int{"O": 1, "T": 3, "V": 8}, Witness: []string{"evaluated"}, Native: true},
+			{Fn: "VerifC19TermsWide", Quick: map[string]int{"O": 1, "T": 2, "V": 10}, Thorough: map[string]int{"O": 1, "T": 3, "V": 10}, Witness: []string{"evaluated"}, Native: true},
 			{Fn: "VerifC19Block", Quick: map[string]int{"I": 2}, Thorough: map[string]int{"I": 3}, Witness: []string{"effective-build-line", "ineffective-build-line"}, Native: true},
 			{Fn: "VerifC19MatchFile", Quick: map[string]int{"S": 3}, Thorough: map[string]int{"S": 4}, Witness: []string{"matched"}, Native: true},
 		},
@@ -219,7 +219,7 @@ var specs = []CheckSpec{
 	{
 		ID: "C16", Pkg: "testscript", UsesVFS: true,
 		Harnesses: []HarnessSpec{
-			{Fn: "VerifC16Update", Quick: map[string]int{"G": 2, "A": 2, "C": 1}, Thorough: map[string]int{"G": 2, "A": 2, "C": 2}, Witness: []string{"update", "no-update", "quoted-update", "rerun", "actual-has-marker", "cmp-from-subdirectory", "duplicate-entry-name", "entry-name-with-variable", "actual-longer-than-the-entry-and-the-next-marker"}},
+			{Fn: "VerifC16Update", Quick: map[string]int{"G": 2, "A": 2, "C": 1}, Thorough: map[string]int{"G": 2, "A": 2, "C": 2}, Witness: []string{"update", "no-update", "quoted-update", "rerun", "actual-has-marker", "cmp-from-subdirectory", "duplicate-entry-name", "entry-name-with-variable", "actual-longer-than-the-entry-and-the-next-marker", "actual-with-crlf-lines"}},
 		},
 		Bounds: map[string]string{
 			"quick":    "script archive with two golden entries of <= 2 symbolic bytes (+newline, or empty), one actual text on stdout (<= 2 arbitrary bytes, or a text containing a marker line with a symbolic byte), one comparison line: cmp / ! cmp / cmpenv against entry 0, entry 1 or a file outside the archive; UpdateScripts symbolic; second run of the real code on the rewritten script",
